@@ -56,6 +56,25 @@ def importLe (a b : Import) : Bool :=
 /-- `ImportManager(imports)`: the recorded statements are added in sorted order -/
 def IM.ofRecorded (l : List Import) : Option IM := ({} : IM).addAll (sortBy importLe l)
 
+/-- what `config_str()` asks the manager for: the import statement a configurable needs (its recorded import
+    source, or one made from its module), together with the configurable's complete selector -/
+structure Req where
+  sel : List String
+  imp : Import
+deriving Repr, Inhabited
+
+/-- requirements are served in the order of the configurables' selectors (ties — not reachable, a selector
+    names one configurable — by the statement's key) -/
+def reqLe (a b : Req) : Bool :=
+  if a.sel == b.sel then importLe a.imp b.imp else lexLe a.sel b.sel
+
+/-- the manager `config_str()` prints from: the recorded statements in sorted order, then the statements the
+    printed configurables need, in the order of their selectors -/
+def IM.ofConfig (recorded : List Import) (reqs : List Req) : Option IM :=
+  match IM.ofRecorded recorded with
+  | none => none
+  | some im => im.addAll ((sortBy reqLe reqs).map (·.imp))
+
 /-- `ImportManager.minimal_selector` for a configurable that came from `module` at attribute path `name` -/
 def IM.selectorOf (im : IM) (module name : List String) : Option (List String) :=
   (lookup module im.selectors).map (· ++ name)
